@@ -267,7 +267,7 @@ func c15(c *Check) {
 				}
 			}
 		}
-		return hasGuardQuiet(c, "x/aggregate/types.GenesisState.Validate", "reject make(map[string]bool)[$0.TokenPairs[μ{0}].Denoms[0]]"), "aggregate GenesisState.Validate must index Denoms[0] of every pair (a genesis with an empty list does not pass validation)"
+		return hasGuardQuiet(c, "x/aggregate/types.GenesisState.Validate", "reject has(make(set[string]), $0.TokenPairs[μ{0}].Denoms[0])"), "aggregate GenesisState.Validate must index Denoms[0] of every pair (a genesis with an empty list does not pass validation)"
 	}
 	audits := []*audit{
 		{fn: "adapter/gov.(HookAdapter).InitGenesis", kind: "type-assert", what: ".(*ethermint/types.EthAccount)", reason: "account prototype is wired to *EthAccount", check: protoAcc},
@@ -327,7 +327,7 @@ func c15(c *Check) {
 				return true, ""
 			}},
 		{fn: "rvesting/module.BeginBlocker", kind: "panic", what: "SendVestedCoins(", reason: "the amount sent is min(reward, pool balance) per denomination and denominations are unique, so the transfer cannot exceed the pool",
-			needs: []need{{"x/rvesting/types.validatePerBlockReward", "reject make(map[string]bool)[$0.(cosmos-sdk/types.Coins)#0[μ{0}].Denom]"}}},
+			needs: []need{{"x/rvesting/types.validatePerBlockReward", "reject has(make(set[string]), $0.(cosmos-sdk/types.Coins)#0[μ{0}].Denom)"}}},
 		{fn: "teleport/app.(*Teleport).InitChainer", kind: "panic", what: "encoding/json.Unmarshal($2.AppStateBytes", reason: "malformed genesis file (fails before any validation)"},
 		{fn: "teleport/app.(*Teleport).InitChainer", kind: "panic", what: "adapter.(Manager).InitGenesis", reason: "system-contract deployment at chain start: wiring"},
 		{fn: "tendermint/types.bigEndianHeightBytes", kind: "slice-bounds", what: "zero([16]byte)[:16][8:]", reason: "constant bounds inside a 16-byte array"},
@@ -426,14 +426,14 @@ func c15(c *Check) {
 			}
 			var hit *audit
 			for _, a := range audits { // most specific first: the description ends with the audited fragment
-				if a.fn == funcName(f) && a.kind == s.Kind && strings.HasSuffix(s.What, a.what) {
+				if ownedBy(c, f, a.fn) && a.kind == s.Kind && strings.HasSuffix(s.What, a.what) {
 					hit = a
 					break
 				}
 			}
 			if hit == nil {
 				for _, a := range audits {
-					if a.fn == funcName(f) && a.kind == s.Kind && strings.Contains(s.What, a.what) {
+					if ownedBy(c, f, a.fn) && a.kind == s.Kind && strings.Contains(s.What, a.what) {
 						hit = a
 						break
 					}
@@ -445,6 +445,14 @@ func c15(c *Check) {
 				continue
 			}
 			hit.hits++
+			if c.P.Absorbed(f) {
+				// a site inside a shared helper stands for the same site in every function the helper was inlined into
+				for _, a := range audits {
+					if a != hit && ownedBy(c, f, a.fn) && a.kind == s.Kind && strings.Contains(s.What, a.what) {
+						a.hits++
+					}
+				}
+			}
 			ok, why := true, ""
 			for _, n := range hit.needs {
 				if !hasGuardQuiet(c, n.fn, n.guard) {
@@ -474,4 +482,19 @@ func c15(c *Check) {
 			}
 		}
 	}
+}
+
+// ownedBy: the audited function is f itself, or f is a helper that exists only inlined into it.
+func ownedBy(c *Check, f *ssa.Function, audited string) bool {
+	if funcName(f) == audited {
+		return true
+	}
+	if c.P.Absorbed(f) {
+		for _, o := range c.P.Owners(f) {
+			if o == audited {
+				return true
+			}
+		}
+	}
+	return false
 }
